@@ -69,6 +69,9 @@ PYFORMS = {
     # the second as an attribute *and* an item - attribute first, whatever
     # an earlier instance of the class was answered from
     "attr_per_instance": "((qrec0.title, qrec1.title) == ('i0', 'a1') and %s)",
+    # an object that offers __getitem__ at instance level only (a wrapper
+    # whose __getattr__ hands on to what it wraps)
+    "instance_getitem": "(qproxy.title == 'pt' and %s)",
     "attr_per_instance2": "((qrec0.title, qrec1.title, qrec0.title) == "
                           "('i0', 'a1', 'i0') and %s)",
 }
@@ -108,6 +111,19 @@ class Rec:
         return self._items[key]
 
 
+class Proxy:
+    """Hands every attribute it has not got on to the mapping it wraps -
+    ``__getitem__`` included."""
+
+    def __init__(self, wrapped):
+        self._wrapped = wrapped
+
+    def __getattr__(self, name):
+        if name in ("_wrapped", "title", "__html__"):
+            raise AttributeError(name)
+        return getattr(self._wrapped, name)
+
+
 class _Gone:
     pass
 
@@ -136,6 +152,7 @@ RENDER_ARGS = {"zbig": 10 ** 5000, "zdead": _dead_proxy(), "bad": BadItem(),
                "dd": {"get": "G", "keys": "K", "items": "I", "x": 1,
                       "ident": _ident},
                "io": ItemOnly({"x": 1, "ident": _ident}),
+               "qproxy": Proxy({"title": "pt"}),
                "qrec0": Rec({"title": "i0"}),
                "qrec1": Rec({"title": "i1"}, title="a1")}
 
